@@ -104,6 +104,26 @@ class C03(FprCheck):
                 b = MG.run_impl(m2, m2.GetConformer(newpos), o, qs)
                 if a != b:
                     return {"key": "conformer-order-changes-fingerprint", "what": "conformer %d gives a different fingerprint when stored at position %d" % (j, newpos)}
+            # conformers addressed by their integer id (`run(conf_id, mol)`) in a molecule whose conformers were re-stored in another
+            # order with their ids carried along (AddConformer(assignId=False)): id 0 need not be the first one stored
+            m3 = Chem.Mol(mol)
+            m3.RemoveAllConformers()
+            for j in order[:6]:
+                c = Chem.Conformer(mol.GetConformer(j))
+                c.SetId(j)
+                m3.AddConformer(c, assignId=False)
+            from harness.fpgen import attempt as _attempt
+            for j in order[:6]:
+                a = MG.run_impl(mol, mol.GetConformer(j), o, qs)
+
+                def by_id(j=j):
+                    f = MG.make_fprinter(o)
+                    f.run(j, m3)
+                    return MG.dump_run(f, qs)
+                b = _attempt(by_id)
+                if a != b:
+                    return {"key": "conformer-order-changes-fingerprint:addressed-by-id",
+                            "what": "conformer id %d fingerprinted by id gives another result once the conformers are stored in the order %s (ids kept)" % (j, order[:6])}
             # the package's own multi-conformer route (one fingerprinter over the conformers in storage order), every level up
             # to one most conformers converge before; four conformers, in the original and in the shuffled relative order
             from e3fp.fingerprint.generate import fprints_dict_from_mol
